@@ -186,205 +186,105 @@ func (v *Version) Compare(other *Version) int {
 	return 0
 }
 
-// compareALMPVersionString compares two ALMP version strings using vercmp rules
-// This implements the Arch Linux vercmp algorithm based on the precedence:
+// compareALMPVersionString compares two ALMP version strings using vercmp rules.
+// This is libalpm's rpmvercmp(): both strings are walked segment by segment, where a
+// segment is a maximal run of digits or a maximal run of letters and everything else
+// is a separator. It yields the documented precedence
 // 1.0a < 1.0b < 1.0beta < 1.0p < 1.0pre < 1.0rc < 1.0 < 1.0.a < 1.0.1
 func compareALMPVersionString(a, b string) int {
-	// Handle the specific documented precedence cases first
 	if a == b {
 		return 0
 	}
 
-	// Check if this is a direct suffix comparison (no dots separating)
-	if isDirectSuffixComparison(a, b) {
-		return compareDirectSuffixes(a, b)
-	}
+	one, two := 0, 0
+	for one < len(a) && two < len(b) {
+		// skip separators
+		sepOne, sepTwo := one, two
+		for one < len(a) && !isALMPAlnum(a[one]) {
+			one++
+		}
+		for two < len(b) && !isALMPAlnum(b[two]) {
+			two++
+		}
 
-	// Otherwise use standard segment-by-segment comparison
-	return compareSegmentBySegment(a, b)
-}
+		// If we ran to the end of either, we are finished with the loop
+		if one >= len(a) || two >= len(b) {
+			break
+		}
 
-// isDirectSuffixComparison checks if we're comparing like "1.0" vs "1.0rc"
-func isDirectSuffixComparison(a, b string) bool {
-	// Simple heuristic: if one is a prefix of the other without separators
-	if len(a) < len(b) && b[:len(a)] == a {
-		// Check if remainder is alpha (no separators)
-		remainder := b[len(a):]
-		return len(remainder) > 0 && unicode.IsLetter(rune(remainder[0])) &&
-			!strings.ContainsAny(remainder[:1], ".+-_")
-	}
-	if len(b) < len(a) && a[:len(b)] == b {
-		// Check if remainder is alpha (no separators)
-		remainder := a[len(b):]
-		return len(remainder) > 0 && unicode.IsLetter(rune(remainder[0])) &&
-			!strings.ContainsAny(remainder[:1], ".+-_")
-	}
-	return false
-}
+		// If the separator lengths were different, we are also finished
+		if one-sepOne != two-sepTwo {
+			if one-sepOne < two-sepTwo {
+				return -1
+			}
+			return 1
+		}
 
-// compareDirectSuffixes handles cases like "1.0" vs "1.0rc"
-func compareDirectSuffixes(a, b string) int {
-	if len(a) < len(b) && b[:len(a)] == a {
-		// a is prefix of b, b has direct suffix -> a wins (1.0 > 1.0rc)
-		return 1
-	}
-	if len(b) < len(a) && a[:len(b)] == b {
-		// b is prefix of a, a has direct suffix -> b wins
-		return -1
-	}
-	// Both have suffixes, compare lexicographically
-	return strings.Compare(a, b)
-}
-
-// compareSegmentBySegment does standard version segment comparison
-// This implements a more accurate vercmp-style algorithm
-func compareSegmentBySegment(a, b string) int {
-	// Convert to segments first, handling delimiters properly
-	aSegments := splitToSegments(a)
-	bSegments := splitToSegments(b)
-
-	// Compare segment by segment
-	maxLen := len(aSegments)
-	if len(bSegments) > maxLen {
-		maxLen = len(bSegments)
-	}
-
-	for i := 0; i < maxLen; i++ {
-		var aSeg, bSeg string
-		var aMissing, bMissing bool
-
-		if i < len(aSegments) {
-			aSeg = aSegments[i]
+		// grab first completely alpha or completely numeric segment
+		startOne, startTwo := one, two
+		isNum := isALMPDigit(a[one])
+		if isNum {
+			for one < len(a) && isALMPDigit(a[one]) {
+				one++
+			}
+			for two < len(b) && isALMPDigit(b[two]) {
+				two++
+			}
 		} else {
-			aMissing = true
+			for one < len(a) && isALMPAlpha(a[one]) {
+				one++
+			}
+			for two < len(b) && isALMPAlpha(b[two]) {
+				two++
+			}
 		}
-		if i < len(bSegments) {
-			bSeg = bSegments[i]
+		segOne, segTwo := a[startOne:one], b[startTwo:two]
+
+		// the two segments are of different types: one numeric, the other alpha;
+		// numeric segments are always newer than alpha segments
+		if segTwo == "" {
+			if isNum {
+				return 1
+			}
+			return -1
+		}
+
+		var cmp int
+		if isNum {
+			cmp = compareALMPDigits(segOne, segTwo)
 		} else {
-			bMissing = true
+			cmp = strings.Compare(segOne, segTwo)
 		}
-
-		// Handle missing segments differently from empty segments
-		if aMissing && bMissing {
-			continue // both missing, equal
-		}
-		if aMissing {
-			return -1 // missing < present (even if empty)
-		}
-		if bMissing {
-			return 1 // present (even if empty) > missing
-		}
-
-		// Compare segments (both present)
-		cmp := compareSegments(aSeg, bSeg)
 		if cmp != 0 {
 			return cmp
 		}
 	}
 
-	return 0
-}
-
-// splitToSegments splits a version string into segments following vercmp rules
-// vercmp alternates between alpha and numeric segments
-func splitToSegments(version string) []string {
-	var segments []string
-	var current strings.Builder
-	var lastWasAlpha *bool // nil = no character yet, true = alpha, false = numeric
-
-	for _, r := range version {
-		if unicode.IsLetter(r) || unicode.IsDigit(r) {
-			isAlpha := unicode.IsLetter(r)
-
-			// Check if we need to split due to alpha/numeric transition
-			if lastWasAlpha != nil && *lastWasAlpha != isAlpha {
-				// Transition between alpha and numeric - split here
-				segments = append(segments, current.String())
-				current.Reset()
-			}
-
-			current.WriteRune(r)
-			lastWasAlpha = &isAlpha
-		} else {
-			// Delimiter found - end current segment
-			if current.Len() > 0 {
-				segments = append(segments, current.String())
-				current.Reset()
-				lastWasAlpha = nil
-			}
-			// Add empty segment for delimiter (preserving empty segments)
-			segments = append(segments, "")
-		}
-	}
-
-	// Add final segment if any content remains
-	if current.Len() > 0 {
-		segments = append(segments, current.String())
-	}
-
-	return segments
-}
-
-// compareSegments compares individual segments using vercmp rules
-func compareSegments(a, b string) int {
-	// Handle empty segments according to vercmp "final showdown" rules
-	if a == "" && b == "" {
+	// all segments compared identically (only separators may have differed)
+	if one >= len(a) && two >= len(b) {
 		return 0
 	}
-	if a == "" {
-		// Empty segment vs non-empty segment
-		// In vercmp, empty segments can be greater than non-empty in certain contexts
-		return 1 // empty > non-empty
-	}
-	if b == "" {
-		// Non-empty vs empty segment
-		return -1 // non-empty < empty
-	}
 
-	// Both non-empty segments
-	aIsNum := len(a) > 0 && unicode.IsDigit(rune(a[0]))
-	bIsNum := len(b) > 0 && unicode.IsDigit(rune(b[0]))
-
-	if aIsNum && bIsNum {
-		return compareALMPDigits(a, b)
-	} else if aIsNum {
-		return 1 // numeric > alpha
-	} else if bIsNum {
-		return -1 // alpha < numeric
-	} else {
-		return strings.Compare(a, b) // both alpha
-	}
-}
-
-// compareALMPDigits compares digit strings numerically
-func compareALMPDigits(a, b string) int {
-	// Empty string is treated as 0
-	if a == "" && b == "" {
-		return 0
-	}
-	if a == "" {
+	// the final showdown: a remaining alpha string never beats an empty string
+	// - if one is empty and two is not an alpha, two is newer
+	// - if one is an alpha, two is newer
+	// - otherwise one is newer
+	if (one >= len(a) && !isALMPAlpha(b[two])) || (one < len(a) && isALMPAlpha(a[one])) {
 		return -1
 	}
-	if b == "" {
-		return 1
-	}
+	return 1
+}
 
-	// Convert to integers for comparison
-	aNum, aErr := strconv.ParseUint(a, 10, 64)
-	bNum, bErr := strconv.ParseUint(b, 10, 64)
+func isALMPDigit(c byte) bool { return c >= '0' && c <= '9' }
+func isALMPAlpha(c byte) bool { return (c >= 'a' && c <= 'z') || (c >= 'A' && c <= 'Z') }
+func isALMPAlnum(c byte) bool { return isALMPDigit(c) || isALMPAlpha(c) }
 
-	if aErr == nil && bErr == nil {
-		if aNum < bNum {
-			return -1
-		}
-		if aNum > bNum {
-			return 1
-		}
-		return 0
-	}
+// compareALMPDigits compares digit strings numerically (any length, leading zeros ignored)
+func compareALMPDigits(a, b string) int {
+	a = strings.TrimLeft(a, "0")
+	b = strings.TrimLeft(b, "0")
 
-	// Fallback for very large numbers that don't fit in uint64
-	// Compare by length first (longer number is larger)
+	// whichever number has more digits wins
 	if len(a) < len(b) {
 		return -1
 	}
